@@ -12,7 +12,10 @@ use std::path::{Path, PathBuf};
 use std::sync::{Arc, Mutex};
 use std::time::Instant;
 
-pub const VERIF_DIR: &str = "/verif";
+/// root of the verification tree: /verif, or $VERIF_ROOT for background runs in a snapshot (vp run)
+pub fn verif_dir() -> String {
+    std::env::var("VERIF_ROOT").unwrap_or_else(|_| "/verif".to_string())
+}
 
 #[derive(Clone, Copy, Debug, PartialEq, Eq)]
 pub enum Tier {
@@ -65,7 +68,7 @@ pub struct KnownFindings {
 
 impl KnownFindings {
     pub fn load() -> Self {
-        let p = Path::new(VERIF_DIR).join("known_findings.json");
+        let p = Path::new(&verif_dir()).join("known_findings.json");
         match std::fs::read_to_string(&p) {
             Ok(s) => {
                 #[derive(serde::Deserialize)]
@@ -497,7 +500,7 @@ pub struct PropertySpec {
 }
 
 fn write_replay(prop: &str, unit: &str, f: &Failure, case: &Value) -> PathBuf {
-    let dir = Path::new(VERIF_DIR).join("replays").join(prop);
+    let dir = Path::new(&verif_dir()).join("replays").join(prop);
     let _ = std::fs::create_dir_all(&dir);
     let body = json!({
         "property": prop,
@@ -621,7 +624,7 @@ pub fn run_property(mut spec: PropertySpec, tier: Tier, seed: u64) -> i32 {
 
     // 1. committed regression replays must pass
     let mut regress_run = 0u64;
-    let rdir = Path::new(VERIF_DIR).join("regress").join(spec.id);
+    let rdir = Path::new(&verif_dir()).join("regress").join(spec.id);
     if let Ok(rd) = std::fs::read_dir(&rdir) {
         let mut files: Vec<PathBuf> = rd
             .filter_map(|e| e.ok().map(|e| e.path()))
@@ -753,7 +756,7 @@ pub fn run_property(mut spec: PropertySpec, tier: Tier, seed: u64) -> i32 {
         "wall_s": (wall * 100.0).round() / 100.0,
         "violations": violations.len(),
     });
-    let edir = Path::new(VERIF_DIR).join("evidence");
+    let edir = Path::new(&verif_dir()).join("evidence");
     let _ = std::fs::create_dir_all(&edir);
     let epath = edir.join(format!("{}.json", spec.id));
     if let Err(e) = std::fs::write(&epath, serde_json::to_string_pretty(&evidence).unwrap()) {
